@@ -8,7 +8,7 @@ from checks_table import CHECKS  # noqa
 
 TEXT = {
  "C01": ("Deterministic discrete-event simulation of 3 and 5 real RaftNode objects (capture transport, real WAL files) under seeded delivery/duplication/loss/reordering, election timeouts, proposals, partitions and crash/restart; an online monitor holds the committed (index -> term,payload) map, leader-per-term map and log-matching relation and checks every step.",
-         "Held on the schedules explored; fixed membership; crashes are process crashes at record boundaries.",
+         "Held on the schedules explored; fixed membership, no snapshot install / compaction in the cluster simulation (those are driven on a single node by the C10 monitor); crashes are process crashes at record boundaries.",
          "runtime monitoring: online trace checker over a seeded fault-injecting cluster simulation of the real node"),
  "C02": ("Real TensorStore histories (all value kinds/key classes/sync modes) with crash images taken from what was really on disk: after every call, at sampled or all byte cuts inside each call's log growth, inside checkpoint() and WAL rotation via hook callbacks, partial snapshot temp files; every image is recovered with the real recover() and compared with the recorded live states S_lo..S_hi; recovered stores are written to and crashed again (3 crashes). Large (multi-write) records are part of the workload. A strace leg checks on the syscall log that every acknowledgement is preceded by fsync of the log; a second one kills a real checkpoint() at every write/rename/fsync and recovers.",
          "Process-crash model (file = prefix of bytes written); power-loss reordering is out of reach, fsync ordering is checked instead. Byte cuts are sampled for large records.",
